@@ -62,7 +62,7 @@ def reference(x, missing, exact=False):
 
 def gen_series(rng, it):
     n = int(rng.choice([3, 4, 5, 8, 12, 36, 120, 365, 900])) if it % 3 else int(rng.integers(3, 901))
-    kind = ["ar", "noise", "season", "const", "twoval", "ramp"][it % 6]
+    kind = ["ar", "noise", "season", "const", "twoval", "ramp", "lowamp"][it % 7]
     t = np.arange(n)
     amp = float(rng.choice([5, 100, 3000]))
     if kind == "ar":
@@ -80,9 +80,11 @@ def gen_series(rng, it):
         x = np.full(n, float(rng.integers(-3000, 3000)))
     elif kind == "twoval":
         x = rng.choice([float(rng.integers(-100, 100)), float(rng.integers(200, 900))], n)
+    elif kind == "lowamp":  # small signal on a large offset (std/rms ~ 1e-4): still a perfectly defined correlation
+        x = rng.integers(0, int(rng.choice([2, 6, 12])), n).astype(float) + np.cumsum(rng.integers(-1, 2, n)).clip(-3, 3) + float(rng.choice([8990, -8990, 6000]))
     else:
         x = t * rng.uniform(-5, 5) + rng.normal(0, 1, n)
-    x = np.clip(np.round(x + rng.integers(-2000, 2000)), -9000, 9000)
+    x = np.clip(np.round(x + (0 if kind == "lowamp" else rng.integers(-2000, 2000))), -9000, 9000)
     gk = ["none", "random", "outage", "leading", "trailing", "heavy"][int(rng.integers(0, 6))]
     m = np.zeros(n, dtype=bool)
     if gk == "random":
@@ -118,10 +120,10 @@ def check_series(R, x, m, exact=False, label=""):
     got_i = float(a.autocorr_1d(xi, nodata))
     got_f = float(a.autocorr_1d(xf))
     got_f32 = float(a.autocorr_1d(xf.astype(np.float32)))
-    if not (abs(got_i) <= 1 + 1e-12 and abs(got_f) <= 1 + 1e-12):
+    if not (abs(got_i) <= 1 + 1e-12 and abs(got_f) <= 1 + 1e-12 and abs(got_f32) <= 1 + 1e-12):
         R.violation("C15:range", f"|r| > 1: int/nodata path {got_i!r}, float/NaN path {got_f!r} ({int(m.sum())} of {n} cells missing)", case)
         return
-    if abs(got_i - r_ref) > 1e-9:
+    if not (abs(got_i - r_ref) <= 1e-9):  # NaN-safe
         key = "C15:gap-formula" if m.any() else "C15:value"
         R.violation(key, f"autocorr_1d(int16, nodata) = {got_i!r}, Pearson r of the mean-filled vectors = {r_ref!r} (n={n}, missing={int(m.sum())})", case)
         return
@@ -129,11 +131,11 @@ def check_series(R, x, m, exact=False, label=""):
     if "ssd" in info:
         ftol += 64 * 2.0 ** -53 * float(np.max(np.abs(x)) ** 2) * n / max(min(info["ssd"]), 1e-300)
     R.note_max("max_float_tolerance_used", ftol)
-    if abs(got_f - r_ref) > ftol or abs(got_f32 - r_ref) > ftol:
+    if not (abs(got_f - r_ref) <= ftol and abs(got_f32 - r_ref) <= ftol):
         key = "C15:gap-formula" if m.any() else "C15:value"
         R.violation(key, f"autocorr_1d(float, NaN) = {got_f!r} / float32 {got_f32!r}, reference {r_ref!r} (tol {ftol:.2g})", case)
         return
-    if abs(got_i - got_f) > ftol:
+    if not (abs(got_i - got_f) <= ftol):
         R.violation("C15:encodings", f"int/nodata {got_i!r} and float/NaN {got_f!r} encodings of the same series disagree", case)
         return
     # positive affine map inside int16
@@ -144,8 +146,21 @@ def check_series(R, x, m, exact=False, label=""):
     if not np.any((xa == nodata) & ~m):
         got_a = float(a.autocorr_1d(xa.astype(np.int16), nodata))
         R.count("affine_pairs")
-        if abs(got_a - got_i) > 1e-9:
+        if not (abs(got_a - got_i) <= 1e-9):
             R.violation("C15:affine", f"r changes under the positive affine map {k}*x+{b}: {got_i!r} -> {got_a!r}", case)
+            return
+    # the largest offset int16 allows (affine invariance must not depend on the magnitude of the values)
+    top = 32000 - int(np.max(x))
+    bot = -32000 - int(np.min(x))
+    for b2 in (top, bot):
+        xb = np.where(m, nodata, x + b2)
+        if np.any((xb == nodata) & ~m):
+            continue
+        got_b = float(a.autocorr_1d(xb.astype(np.int16), nodata))
+        got_bf = float(a.autocorr_1d(np.where(m, np.nan, x + b2).astype(np.float64)))
+        R.count("offset_pairs")
+        if not (abs(got_b - got_i) <= 1e-9 and abs(got_bf - got_f) <= max(ftol, 64 * 2.0 ** -53 * 32000.0 ** 2 * n / max(min(info.get("ssd", (1e300, 1e300))), 1e-300))):
+            R.violation("C15:affine", f"r changes when {b2:+d} is added to all valid cells: int path {got_i!r} -> {got_b!r}, float path {got_f!r} -> {got_bf!r}", case)
             return
     if R.want_sample() and m.any():
         R.sample({"x": xi[:16], "nodata": nodata, "r": got_i, "reference": r_ref, "label": label})
@@ -211,8 +226,8 @@ def shard_raster(spec, R):
                 R.violation("C15:raster-shape", f"{name}: dtype {o.dtype}, shape {o.shape}", case)
                 break
             tol = 2 * np.spacing(np.abs(ref).astype(np.float32)).astype(np.float64) + 1e-6
-            if np.any(np.abs(o.astype(np.float64) - ref) > tol):
-                i = np.argwhere(np.abs(o.astype(np.float64) - ref) > tol)[0]
+            if np.any(~(np.abs(o.astype(np.float64) - ref) <= tol)):  # NaN-safe
+                i = np.argwhere(~(np.abs(o.astype(np.float64) - ref) <= tol))[0]
                 key = "C15:gap-formula" if miss[tuple(i)].any() else "C15:value"
                 R.violation(key, f"{name}: pixel {i.tolist()} = {float(o[tuple(i)])!r}, reference {ref[tuple(i)]!r}", {"x": cube[tuple(i)], "missing": miss[tuple(i)]})
                 break
@@ -232,7 +247,7 @@ def run_shard(spec, R):
 def finalize(agg, tier):
     c = agg["counters"]
     out = []
-    for k in ("float_references", "exact_rational_references", "affine_pairs", "raster_outputs", "no_valid_pair", "no_variance", "gaps_outage", "gaps_heavy", "gaps_leading", "gaps_trailing", "gaps_random"):
+    for k in ("float_references", "exact_rational_references", "affine_pairs", "offset_pairs", "series_lowamp", "raster_outputs", "no_valid_pair", "no_variance", "gaps_outage", "gaps_heavy", "gaps_leading", "gaps_trailing", "gaps_random"):
         if c.get(k, 0) == 0:
             out.append(f"monitor/class {k} never observed")
     return out
